@@ -307,8 +307,10 @@ func (f *OrefaFile) ReadDir(n int) ([]fs.DirEntry, error) {
 	}
 
 	if f.dirEntries == nil {
+		// both views are taken together: ReadDir and Readdirnames share one position.
 		nd.mu.RLock()
 		f.dirEntries = nd.dirEntries()
+		f.dirNames = nd.dirNames()
 		nd.mu.RUnlock()
 
 		f.dirIndex = 0
@@ -384,7 +386,9 @@ func (f *OrefaFile) Readdirnames(n int) (names []string, err error) {
 	}
 
 	if f.dirNames == nil {
+		// both views are taken together: ReadDir and Readdirnames share one position.
 		nd.mu.RLock()
+		f.dirEntries = nd.dirEntries()
 		f.dirNames = nd.dirNames()
 		nd.mu.RUnlock()
 
